@@ -412,6 +412,11 @@ class Rule_CV11(BaseRule):
                 and current_type_casting_style
                 and (prior_type_casting_style != current_type_casting_style)
             ):
+                # Don't fix if a comment sits within the expression. The
+                # rewrite joins everything onto one line, so an inline
+                # comment would swallow whatever ends up after it.
+                if any(seg.is_comment for seg in context.segment.raw_segments):
+                    fixes = []
                 return LintResult(
                     anchor=context.segment,
                     memory=context.memory,
@@ -501,6 +506,12 @@ class Rule_CV11(BaseRule):
             if (convert_content and len(convert_content) > 2) or (
                 cast_content and len(cast_content) > 2
             ):
+                fixes = []
+
+            # Don't fix if a comment sits within the expression. The rewrite
+            # joins everything onto one line, so an inline comment would
+            # swallow whatever ends up after it.
+            if any(seg.is_comment for seg in context.segment.raw_segments):
                 fixes = []
 
             return LintResult(
